@@ -137,7 +137,7 @@ func refPM(pattern, ident string, exact bool) (string, bool) {
 }
 
 var plainPool = []string{"ID", "Id", "id", "Name", "name", "NAME", "User.Name", "user.name", "User.ID", "A", "a", "A.B", "a.b",
-	"µs", "Μs", "μs", "ſ", "s", "S", "Kelvin", "kelvin", "ab", "AB", "Ab", "aB", "CreatedAt", "createdat", "Straße", "STRASSE", "STRAẞE", "straße", "ς", "Σ", "σ", "Å", "å", "X.Y.Z", "x.y.z", "URL", "Url", "a+b", "A(B)", "", ".", "a.", "$1"}
+	"µs", "Μs", "μs", "ſ", "s", "S", "Kelvin", "kelvin", "\u212aelvin", "\u212a", "k", "K", "ab", "AB", "Ab", "aB", "CreatedAt", "createdat", "Straße", "STRASSE", "STRAẞE", "straße", "ς", "Σ", "σ", "Å", "å", "X.Y.Z", "x.y.z", "URL", "Url", "a+b", "A(B)", "", ".", "a.", "$1"}
 
 var rePool = []string{`/^A/`, `/^a/`, `/\S+e/`, `/\s/`, `/[A-Z]+/`, `/[a-z]+$/`, `/\pL/`, `/\pL{2}/`, `/(?P<n>a)b/`, `/(?P<N>A)B/`, `/a|B/`,
 	`/\bID\b/`, `/\d+$/`, `/.*Name/`, `/\x41/`, `/\QA.B\E/`, `/[/`, `/(/`, `/`, `//`, `/a`, `a/`, `/A.B/`, `/^User\.(Name|ID)$/`, `/\W/`, `/\D/`,
